@@ -18,6 +18,8 @@ CFG = dict(
     rigs=[dict(test="TestC05Perm", timeout_quick=300, timeout_thorough=1500),
           dict(test="TestC05Surplus", timeout_quick=200, timeout_thorough=300),
           dict(test="TestC05Fault", timeout_quick=200, timeout_thorough=300),
+          dict(test="TestC05Slow", timeout_quick=200, timeout_thorough=300),
+          dict(test="TestC05ServerKeys", timeout_quick=200, timeout_thorough=300),
           dict(test="TestC05Free", timeout_quick=300, timeout_thorough=900)],
     reason_text={"1": "the real client's observation differs from every outcome of the Gallina model (Model/Client.v, all orders of internal rules)",
                  "2": "ids: two calls share an id on the wire (or an id is 0 / a call wrote no first envelope)",
@@ -32,7 +34,7 @@ CFG = dict(
          "real client + real server: 64 goroutines start 10^4 (thorough 10^5) calls (10% bidi streams) on one connection with seeded "
          "yields at the verif hook points; ids of all first envelopes taken from the wire, (request, reply) recorded by every caller; one unary call in seven has an "
          "already-ended context (its transport write fails cleanly while the others are in flight), one stream in three is aborted by "
-         "its handler while the client still sends; (c') TestC05Surplus: surplus replies to one unary call in one burst, then later calls on the same connection each answered by its own reply (distinct tokens); (c) TestC05Fault, in a bubble with a transport that holds writes: 1..2 unary calls "
+         "its handler while the client still sends; (c') TestC05Surplus: surplus replies to one unary call in one burst, then later calls on the same connection each answered by its own reply (distinct tokens); (c'') TestC05Slow (72 cases): a stream takes no response while the peer sends it 4 / 5 / 7 envelopes (and some to a call that keeps up), the VIRTUAL CLOCK is advanced by 10 ms / 100 ms / 1 s after every delivery / once / before the drain / during the drain, then the stream drains everything: received = sent, position by position; TestC05ServerKeys: one real server connection, scripted peer, streams of sources whose name + id collide under concatenation (client-1/12 vs client-11/2 ...), alive together; (c) TestC05Fault, in a bubble with a transport that holds writes: 1..2 unary calls "
          "whose Write fails cleanly (context ends while the write waits / write error) while 1..3 later calls are in flight, then 1..2 new "
          "calls; the peer answers every request it received with token + 1 under the request's id; these cases are ALSO compared with the "
          "model (reason 1): a Write held by the transport is the model state 'id allocated, not yet registered + written'; "
